@@ -231,7 +231,43 @@ fn judge(rep: &mut Report, sc: &Scenario, main_bytes: &[(String, Vec<u8>)], lib_
 
 include!("selfcheck.rs");
 
+/// cases of the Miri slice the thorough tier asks for (measured: see NOTES.md)
+const MIRI_CASES: usize = 6;
+
+/// `c15 --miri-slice <seed> <cases> <max seconds>`: single-threaded, no files: generated scenarios (primary motif kind = case index,
+/// as in the `generated` workload) with the main jar always as an in-memory `ParsedJar` (the zip variant would interpret the
+/// deflate / crc code of the zip crate for minutes), judged exactly like the ordinary workload: duke's class reader on every
+/// class of the jar (names come out of modified UTF-8 into the punned name types), the super-type walks of both remappers,
+/// `get_specialized_methods`, `add_specialized_methods_to_mappings`, key invariant, entry-by-entry comparison. The javac corpus
+/// workload reads files and is not part of the slice. A scenario has 15-40 classes: one case costs the interpreter about a minute.
+fn miri_slice(seed: u64, cases: usize, max_s: u64) -> i32 {
+    let mut rep = Report::new();
+    let deadline = std::time::Instant::now() + std::time::Duration::from_secs(max_s);
+    let timing = std::env::args().any(|a| a == "--slice-timing");
+    let mut i = 0u64;
+    while (i as usize) < cases && std::time::Instant::now() < deadline {
+        let t0 = std::time::Instant::now();
+        let mut rng = Rng::new(common::rng::case_seed(seed, "C15/miri", i));
+        rep.cur = ("miri".into(), i);
+        // spread the few cases over the motif kinds: the seed moves the window
+        let kind_index = (seed.wrapping_mul(7) + i * 5) % gen::KINDS.len() as u64 + gen::KINDS.len() as u64 * (i % 7);
+        let mut sc = gen::gen_scenario(&mut rng, kind_index);
+        sc.zip = false;
+        let bad = |s: String| -> ! { eprintln!("HARNESS-ERROR C15 (slice case {i}): {s}"); std::process::exit(3) };
+        let main_bytes = emitc::emit_jar(&sc.main, sc.layout_seed).unwrap_or_else(|e| bad(e));
+        let lib_bytes: Vec<_> = sc.libs.iter().map(|l| emitc::emit_jar(l, sc.layout_seed ^ 0x55).unwrap_or_else(|e| bad(e))).collect();
+        rep.add("miri.classes_in_jars", (main_bytes.len() + lib_bytes.iter().map(|l| l.len()).sum::<usize>()) as u64);
+        judge(&mut rep, &sc, &main_bytes, &lib_bytes, &mut rng, "generated");
+        if timing { println!("SLICE-TIME case {i} {:.4}s classes {}", t0.elapsed().as_secs_f64(), sc.main.classes.len()); }
+        i += 1;
+    }
+    for v in rep.violations.values() { println!("SLICE-OBSERVATION {} ({}x)", v.signature, v.count); }
+    println!("MIRI-SLICE done cases={} (asked for {}) evaluations={} observations={} classes_read={} bridges_expected={}", i, cases, rep.evaluations, rep.violations.len(), rep.get("miri.classes_in_jars"), rep.get("methods.must_bridge"));
+    0
+}
+
 fn main() {
+    if let Some((seed, n, max_s)) = common::miri::slice_args() { std::process::exit(miri_slice(seed, n, max_s)); }
     let mut ctx = Ctx::from_args("C15", 40, 540);
     let replay = load_replay(&mut ctx);
     selfcheck();
@@ -292,6 +328,11 @@ fn main() {
         meta.oblige("all four invoke opcodes occur in expected bridges", rep.seen_n("invoke_opcodes_in_must_bridges") == 4);
         meta.oblige("near misses of every reason (zero / several callees, private, static, final, arity, incompatible types)", rep.seen_n("near_miss_reasons") >= 7);
         meta.oblige("corpus jars with javac bridges were judged", rep.get("corpus.jars") >= 4 && rep.get("corpus.must_bridges") > 0);
+        if ctx.tier == Tier::Thorough {
+            let r = common::miri::run_slice(&ctx, "c15", env!("CARGO_MANIFEST_DIR"), MIRI_CASES, 170, 285);
+            if let Some(line) = r.ub { rep.cur = ("miri".into(), 0); rep.violation(format!("miri: {line}"), json!({"how": format!("cargo +nightly miri run --offline -p c15 -- --miri-slice <seed> {MIRI_CASES} 170"), "seed": ctx.seed as i64, "status": r.status})); }
+            meta.extra.insert("miri_slice".into(), json!(r.status));
+        } else { meta.extra.insert("miri_slice".into(), json!("not run in the quick tier")); }
     }
     std::process::exit(finish(&ctx, rep, meta));
 }
